@@ -91,4 +91,272 @@ theorem typeBounds_mem_iff {t : Ty} {tb : IR} (h : typeBounds t = some tb) (v : 
         · intro ⟨⟨h3, h5⟩, h7⟩
           exact ⟨⟨h3, (h7 hne).1⟩, h5, (h7 hne).2⟩
 
+/-- every fact of the situation is true in the store `env` (ideal integers) -/
+def FactsHold (env : Env) (fs : List Expr) : Prop := ∀ f ∈ fs, evalI env f ≠ 0
+
+/-- meaning of the comparison operators -/
+def cmpRel : BOp → Int → Int → Prop
+  | .ne, x, y => x ≠ y
+  | .lt, x, y => x < y
+  | .le, x, y => x ≤ y
+  | .eq, x, y => x = y
+  | .ge, x, y => x ≥ y
+  | .gt, x, y => x > y
+  | _, _, _ => True
+
+theorem b2i_ne_zero {b : Bool} : b2i b ≠ 0 ↔ b = true := by
+  cases b <;> simp [b2i]
+
+theorem b2i_mem01 (b : Bool) : (mkIR 0 1).mem (b2i b) := by
+  cases b <;> simp [b2i, mem_mkIR]
+
+theorem cmp_true {op : BOp} (hc : op.isCmp = true) (tb : Base) (x y : Int) :
+    binSem op tb x y ≠ 0 ↔ cmpRel op x y := by
+  cases op <;> simp [BOp.isCmp] at hc <;> simp [binSem, cmpRel, b2i_ne_zero]
+
+theorem cmpRel_reverse {op : BOp} (hc : op.isCmp = true) (x y : Int) :
+    cmpRel op.reverse y x ↔ cmpRel op x y := by
+  cases op <;> simp [BOp.isCmp] at hc <;> simp [BOp.reverse, cmpRel] <;> omega
+
+theorem reverse_isCmp {op : BOp} (hc : op.isCmp = true) : op.reverse.isCmp = true := by
+  cases op <;> simp [BOp.isCmp] at hc <;> simp [BOp.reverse, BOp.isCmp]
+
+/-- `otherHandSide`: what a hit means for values -/
+theorem otherHandSide_sound {env : Env} {x n other : Expr} {op : BOp}
+    (h : otherHandSide x n = some (op, other)) (hx : evalI env x ≠ 0) :
+    op.isCmp = true ∧ cmpRel op (evalI env n) (evalI env other) := by
+  cases x with
+  | binary op0 l r =>
+    simp only [otherHandSide] at h
+    split at h
+    · rename_i hc
+      split at h
+      · rename_i hnl
+        cases h
+        have : n = l := eq_of_beq hnl
+        subst this
+        refine ⟨hc, ?_⟩
+        simp only [evalI] at hx
+        exact (cmp_true hc _ _ _).1 hx
+      · split at h
+        · rename_i hnr
+          cases h
+          have : n = r := eq_of_beq hnr
+          subst this
+          refine ⟨reverse_isCmp hc, ?_⟩
+          simp only [evalI] at hx
+          exact (cmpRel_reverse hc _ _).2 ((cmp_true hc _ _ _).1 hx)
+        · cases h
+    · cases h
+  | _ => simp [otherHandSide] at h
+
+theorem refineRes_sound {op : BOp} {lo hi cv v : Int} (hrel : cmpRel op v cv)
+    (h1 : lo ≤ v) (h2 : v ≤ hi) :
+    (refineRes op lo hi cv).1 ≤ v ∧ v ≤ (refineRes op lo hi cv).2.1 := by
+  cases op <;> simp only [cmpRel] at hrel <;> simp only [refineRes] <;>
+    (repeat' split) <;> (try simp only []) <;> omega
+
+theorem refineStep_sound {env : Env} {n x : Expr} {nb b : IR}
+    (hx : evalI env x ≠ 0) (h : refineStep n nb x = some b) (hm : nb.mem (evalI env n)) :
+    b.mem (evalI env n) := by
+  unfold refineStep at h
+  split at h
+  · rename_i op cv hoh
+    obtain ⟨hc, hrel⟩ := otherHandSide_sound hoh hx
+    simp only [evalI] at hrel
+    split at h
+    · rename_i lo hi hlo hhi
+      have hm' : lo ≤ evalI env n ∧ evalI env n ≤ hi := by
+        have : nb = ⟨some lo, some hi⟩ := by cases nb; simp_all
+        rw [this] at hm; exact mem_some.1 hm
+      split at h
+      · cases h
+      · cases h
+        rw [mem_mkIR]
+        exact refineRes_sound hrel hm'.1 hm'.2
+    · cases h; exact hm
+  · cases h; exact hm
+
+theorem refine_sound {env : Env} {fs : List Expr} {n : Expr} {nb b : IR}
+    (hf : FactsHold env fs) (h : refine fs n nb = some b) (hm : nb.mem (evalI env n)) :
+    b.mem (evalI env n) := by
+  unfold refine at h
+  induction fs generalizing nb with
+  | nil => simp [List.foldlM] at h; cases h; exact hm
+  | cons x xs ih =>
+    simp only [List.foldlM_cons] at h
+    cases hs : refineStep n nb x with
+    | none => simp [hs] at h
+    | some nb' =>
+      simp only [hs, Option.bind_eq_bind, Option.bind_some] at h
+      exact ih (fun f hf' => hf f (List.mem_cons_of_mem _ hf')) h
+        (refineStep_sound (hf x List.mem_cons_self) hs hm)
+
+theorem finish_sound {env : Env} {fs : List Expr} {n : Expr} {nb b : IR}
+    (hf : FactsHold env fs) (h : finish fs n nb = some b) (hm : nb.mem (evalI env n)) :
+    b.mem (evalI env n) ∧ inType (typeOf n) (evalI env n) := by
+  unfold finish at h
+  cases hr : refine fs n nb with
+  | none => simp [hr] at h
+  | some nb' =>
+    simp only [hr] at h
+    have hm' := refine_sound hf hr hm
+    cases ht : typeBounds (typeOf n) with
+    | none => simp [ht] at h
+    | some tb =>
+      simp only [ht] at h
+      split at h
+      · rename_i a b' c d ha hb hc hd
+        split at h
+        · cases h
+        · rename_i hcmp
+          cases h
+          refine ⟨hm', (typeBounds_mem_iff ht _).1 ?_⟩
+          have h1 := mem_lo hm' ha
+          have h2 := mem_hi hm' hb
+          simp only [Bool.or_eq_true, decide_eq_true_eq, not_or, Int.not_lt] at hcmp
+          have : tb = ⟨some c, some d⟩ := by cases tb; simp_all
+          rw [this, mem_some]
+          omega
+      · cases h
+
+theorem mem_map_imin_hi {nb : IR} {v k : Int} (hm : nb.mem v) (hk : v ≤ k) :
+    (IR.mk nb.lo (nb.hi.map (imin · k))).mem v := by
+  refine ⟨hm.1, ?_⟩
+  have h2 := hm.2
+  cases hh : nb.hi with
+  | none => simp [leHi]
+  | some b =>
+    rw [hh] at h2
+    simp only [leHi] at h2
+    simp only [Option.map_some, leHi, imin]
+    split <;> omega
+
+theorem mem_map_imax_lo {nb : IR} {v k : Int} (hm : nb.mem v) (hk : k ≤ v) :
+    (IR.mk (nb.lo.map (imax · k)) nb.hi).mem v := by
+  refine ⟨?_, hm.2⟩
+  have h1 := hm.1
+  cases hh : nb.lo with
+  | none => simp [loLe]
+  | some b =>
+    rw [hh] at h1
+    simp only [loLe] at h1
+    simp only [Option.map_some, loLe, imax]
+    split <;> omega
+
+theorem minusFactStep_sound {env : Env} {l r f : Expr} {nb : IR} (hf : evalI env f ≠ 0)
+    (hm : nb.mem (evalI env l - evalI env r)) :
+    (minusFactStep l r nb f).mem (evalI env l - evalI env r) := by
+  unfold minusFactStep
+  split
+  · rename_i op xl xr
+    split
+    · rename_i heq
+      simp only [Bool.and_eq_true] at heq
+      have e1 : l = xl := eq_of_beq heq.1
+      have e2 : r = xr := eq_of_beq heq.2
+      subst e1; subst e2
+      simp only [evalI] at hf
+      cases op <;> try exact hm
+      · have := (cmp_true (op := .lt) rfl _ _ _).1 hf
+        simp only [cmpRel] at this
+        exact mem_map_imin_hi hm (by omega)
+      · have := (cmp_true (op := .le) rfl _ _ _).1 hf
+        simp only [cmpRel] at this
+        exact mem_map_imin_hi hm (by omega)
+      · have := (cmp_true (op := .ge) rfl _ _ _).1 hf
+        simp only [cmpRel] at this
+        exact mem_map_imax_lo hm (by omega)
+      · have := (cmp_true (op := .gt) rfl _ _ _).1 hf
+        simp only [cmpRel] at this
+        exact mem_map_imax_lo hm (by omega)
+    · exact hm
+  · exact hm
+
+theorem minusBounds_sound {env : Env} {fs : List Expr} {l r : Expr} {lb rb : IR}
+    (hf : FactsHold env fs) (hl : lb.mem (evalI env l)) (hr : rb.mem (evalI env r)) :
+    (minusBounds fs l lb r rb).mem (evalI env l - evalI env r) := by
+  unfold minusBounds
+  have h0 : (sub lb rb).mem (evalI env l - evalI env r) :=
+    WuffsVerif.Props.C06.sub_sound lb rb _ _ hl hr
+  generalize sub lb rb = nb at h0
+  induction fs generalizing nb with
+  | nil => exact h0
+  | cons x xs ih =>
+    simp only [List.foldl_cons]
+    exact ih (fun f hf' => hf f (List.mem_cons_of_mem _ hf')) _
+      (minusFactStep_sound (hf x List.mem_cons_self) h0)
+
+theorem loNeg_false {X : IR} {x : Int} (h : loNeg X = false) (hm : X.mem x) : 0 ≤ x := by
+  unfold loNeg at h
+  cases hl : X.lo with
+  | none => simp [hl] at h
+  | some a =>
+    simp [hl] at h
+    have := mem_lo hm hl
+    omega
+
+theorem loNonPos_false {X : IR} {x : Int} (h : loNonPos X = false) (hm : X.mem x) : 0 < x := by
+  unfold loNonPos at h
+  cases hl : X.lo with
+  | none => simp [hl] at h
+  | some a =>
+    simp [hl] at h
+    have := mem_lo hm hl
+    omega
+
+theorem containsIR_mem {slo shi y : Int} {Y : IR} (h : containsIR (mkIR slo shi) Y = true)
+    (hm : Y.mem y) : slo ≤ y ∧ y ≤ shi := by
+  unfold containsIR at h
+  rw [not_empty_of_mem hm] at h
+  simp only [mkIR, Bool.false_eq_true, if_false, Bool.and_eq_true] at h
+  obtain ⟨h1, h2⟩ := h
+  cases hl : Y.lo with
+  | none => simp [hl] at h1
+  | some a =>
+    cases hh : Y.hi with
+    | none => simp [hh] at h2
+    | some b =>
+      simp [hl] at h1
+      simp [hh] at h2
+      have := mem_lo hm hl
+      have := mem_hi hm hh
+      omega
+
+theorem shiftBounds_spec {b : Base} {slo shi : Int} (h : b.shiftBounds = some (slo, shi)) :
+    slo = 0 ∧ shi = (b.bits : Int) - 1 ∧ b.numBounds = some (0, (2 : Int) ^ b.bits - 1) ∧
+      b.isUnsigned = true := by
+  cases b <;> simp [Base.shiftBounds] at h <;> obtain ⟨rfl, rfl⟩ := h <;>
+    simp [Base.bits, Base.numBounds, Base.isUnsigned]
+
+theorem unsigned_numBounds {b : Base} (h : b.isUnsigned = true) :
+    b.numBounds = some (0, (2 : Int) ^ b.bits - 1) := by
+  cases b <;> simp [Base.isUnsigned] at h <;> simp [Base.bits, Base.numBounds]
+
+theorem emod_mem_unsigned {b : Base} (h : b.isUnsigned = true) (z : Int) {nb : IR}
+    (hn : numIR b = some nb) : nb.mem (z % 2 ^ b.bits) := by
+  unfold numIR at hn
+  rw [unsigned_numBounds h] at hn
+  cases hn
+  rw [mem_mkIR]
+  have hp : (0 : Int) < 2 ^ b.bits := Int.pow_pos (by decide)
+  have := Int.emod_nonneg z (Int.ne_of_gt hp)
+  have := Int.emod_lt_of_pos z hp
+  omega
+
+theorem ixor_bound {x y a b : Int} (hx0 : 0 ≤ x) (hxa : x ≤ a) (hy0 : 0 ≤ y) (hyb : y ≤ b) :
+    0 ≤ ixor x y ∧ ixor x y ≤ bitMaskN (bitLen (imax a b)) := by
+  unfold ixor bitMaskN
+  refine ⟨Int.natCast_nonneg _, ?_⟩
+  have hm := (bitLen_range (imax a b)).2
+  have hxm : x ≤ imax a b := by unfold imax; split <;> omega
+  have hym : y ≤ imax a b := by unfold imax; split <;> omega
+  generalize bitLen (imax a b) = k at *
+  have e := two_pow_cast k
+  have hx' : x.toNat < 2 ^ k := by omega
+  have hy' : y.toNat < 2 ^ k := by omega
+  have := Nat.xor_lt_two_pow hx' hy'
+  show ((x.toNat ^^^ y.toNat : Nat) : Int) ≤ 2 ^ k - 1
+  omega
+
 end WuffsVerif.Proof.WCoreBounds
